@@ -242,8 +242,8 @@ SPECS = {
         "monitors": [("c08-conservation", mon_conservation), ("c08-linearizable", mon_linearizable)],
         "transitions": transitions, "nontrivial": nontrivial, "model_applies": model_applies, "canon": canon_step, "canon_protocol": canon_protocol,
         "all_transitions": ["kind-token", "kind-aimd", "withdraw-granted", "withdraw-refused", "deposit", "skip", "preempted-inside-fetch-update"],
-        "model_modules": ["TR.Model.Budget", "TR.Lemmas.Budget", "TR.Model.BudgetTrace", "TR.Lemmas.BudgetTrace", "TR.Mutants.DepositLoadStore"],
-        "lean_files": ["TR.Model.Budget", "TR.Lemmas.Budget", "TR.Model.BudgetTrace", "TR.Lemmas.BudgetTrace"],
+        "model_modules": ["TR.Model.Budget", "TR.Lemmas.Budget", "TR.Model.BudgetTrace", "TR.Lemmas.BudgetTrace", "TR.Lemmas.BudgetTraceOuts", "TR.Mutants.DepositLoadStore"],
+        "lean_files": ["TR.Model.Budget", "TR.Lemmas.Budget", "TR.Model.BudgetTrace", "TR.Lemmas.BudgetTrace", "TR.Lemmas.BudgetTraceOuts"],
         "sizes": (500, 20000),
         "rule": "2..4 OS threads running programs of 1..4 try_withdraw/deposit calls on one real budget (token bucket or AIMD) with hooked "
                 "atomics; the baton scheduler grants one atomic operation per schedule entry; random schedules (thorough tier first enumerates "
@@ -260,7 +260,7 @@ SPECS = {
                       "(AIMD: the controller's limit stays in [min,max]); the run is linearizable: replaying the operations one at a time "
                       "in the order of their linearisation points reproduces every result and the balance. The model's step granularity is "
                       "tied to the code by the turn trace under the hooked atomics (a load/store deposit takes two turns, the model one). "
-                      "Protocol level (trace_conservation, trace_conservation_prefix, trace_capped, trace_linearizable): the same three facts for EVERY "
+                      "Protocol level (trace_conservation, trace_conservation_prefix, trace_capped, trace_linearizable, trace_linearizable_outputs): the same three facts for EVERY "
                       "value-level trace of the atomics that the verified checker TR.Budget.checkTrace accepts, independent of how an implementation "
                       "sequences loads and retries; the harness records such a trace on every run and the checker decides it.",
         "level_note": "Trusted: Lean kernel; the transcription of budget.rs/aimd.rs at atomic-step granularity (sampled by the scheduler-driven "
